@@ -61,7 +61,7 @@ def labels(objs):
     return out
 
 
-def compare_select(sv, case, ast, text=None, api=None, budget=20.0):
+def compare_select(sv, case, ast, text=None, api=None, budget=20.0, match_law=False, match_kw=None):
     """Compare sv.select(text, target) with the reference.
 
     Returns (status, info): status in 'agree', 'unspec', 'DISAGREE', 'RAISE', 'BUDGET';
@@ -80,6 +80,23 @@ def compare_select(sv, case, ast, text=None, api=None, budget=20.0):
         info['exc'] = '%s: %s' % (type(got).__name__, str(got)[:200])
         info['site'] = monitors.exc_site(got)
         return 'RAISE', info
+    # reference-free side law (catches state that leaks from one element's evaluation into the next within a call):
+    # for :scope-free selectors, select() membership must equal match() asked for each element alone
+    if match_law and ':scope' not in text and '&' not in text:
+        import bs4
+        members = {id(x) for x in got}
+        for e in case.target_obj.descendants:
+            if not isinstance(e, bs4.Tag):
+                continue
+            st2, m = monitors.guarded_call(lambda: sv.match(text, e, namespaces=case.nsmap, **(match_kw or {})), budget=budget)
+            if st2 != 'ok':
+                break
+            if bool(m) != (id(e) in members):
+                info['got'] = labels(got)
+                info['exp'] = 'match() alone says %r for <%s>' % (m, e.name)
+                info['match_law'] = True
+                return 'DISAGREE', info
+        info['match_law_checked'] = True
     if unspec:
         return 'unspec', info
     gi = [id(x) for x in got]
